@@ -195,7 +195,9 @@ impl Property for C06 {
         let mut wish = PipeWish::any();
         wish.allow_corpus = false;
         if pol == Policy::Stdout {
-            wish.style = Some(Style::Json);
+            // rows must be recognisable as "not a diagnostic": JSON rows, or csv rows (whose
+            // strings are quoted), with the default row separator
+            wish.style = Some(if rng.chance(1, 4) { Style::Csv } else { Style::Json });
             wish.default_rows = true;
         }
         case.opts = gen_pipe(rng, &wish).opts;
